@@ -401,6 +401,14 @@ def fam_eq(tier, seed, extra=()):
         ("f := () -> int { return 1 }; g := () -> int { return 1 }; f == g", False),
         ("f := () -> int { return 1 }; g := f; f == g", True),
         ("x := 0.0 / 0.0; x == x", False), ("x := [0.0 / 0.0]; x == x", False),
+        # by content, also when both operands are the very same object
+        ("n := 0.0 / 0.0; s := struct{a := n}; s == s", False), ("n := 0.0 / 0.0; s := (n, 1); s == s", False),
+        ("n := 0.0 / 0.0; s := struct{a := n}; t := s; (s == t, s != t)", (False, True)),
+        ("n := 0.0 / 0.0; s := [struct{a := [n]}]; s == s", False),
+        ("f := (x: float) -> bool { s := struct{a := x / x}; return s == s }; f(0.0)", False),
+        ("f := (x: float) -> bool { s := (x / x, 1); return s == s }; f(0.0)", False),
+        ("f := (x: float) -> bool { s := [x / x]; return s == s }; f(0.0)", False),
+        ("f := (x: float) -> bool { s := struct{a := x}; return s == s }; f(1.5)", True),
         # value arms of match use the same equality
         # (a value arm only parses with ONE parenthesised candidate: observation D4 in DESIGN)
         ("match [0; 0] { ([]) => 1, => 2, }", 1), ("match 1.0 { (1) => 1, (1.0) => 2, => 3, }", 2),
@@ -691,6 +699,15 @@ def fam_fold(tier, seed, extra=()):
     out.append(Case("fold/if/const", "x := if 1 < 2 10 else 20; x", 10))
     out.append(Case("fold/repeat/neg", "f := (x: int) -> [int] { return [x; 0 - 1] }; 1", Err(E_NEGLEN)))
     out.append(Case("fold/repeat/ok", "f := (x: int) -> [int] { return [x; 2] }; f(3)", [3, 3]))
+    # constant index into an array LITERAL with non-constant elements (at::create_from_instructions, Array arm)
+    for n in (1, 2, 3):
+        elems = ", ".join(f"x + {j}" for j in range(n))
+        for i in (-n - 1, -n, -n + 1, -1, 0, n - 1, n, n + 1, MIN, MAX):
+            exp = (10 + (i % n)) if -n <= i < n else Err(E_INDEX)
+            out.append(Case(f"fold/index/lit/{n}/{i}", f"f := (x: int) -> int {{ return [{elems}][i] }}; f(10)", exp, {"i": i},
+                            what=f"[{elems}][{i}] with x hidden"))
+            out.append(Case(f"fold/index/str/{n}/{i}", f"f := (x: int) -> string {{ return \"{'abc'[:n]}\"[i] }}; f(10)",
+                            ('abc'[:n][i] if -n <= i < n else Err(E_INDEX)), {"i": i}))
     out.append(Case("fold/index/early", "f := (x: int) -> int { return [x, x][2] }; 1", Err(E_INDEX)))
     out.append(Case("fold/index/ok", "f := (x: int) -> int { return [x, x + 1][0 - 1] }; f(1)", 2))
     return out
